@@ -14,7 +14,8 @@ REQUIRED_THEOREMS = ['Properties.C12.masked_scatter_gather', 'Properties.C12.row
                      'Properties.C12.exec_ar_accepted_iff_rows', 'Properties.C12.exec_cdf_accepted_iff_rows', 'Properties.C12.exec_coupling_accepted_iff_rows',
     "Properties.C12.luForward_rowwise", "Properties.C12.luInverse_rowwise", "Properties.C12.qrForward_rowwise", "Properties.C12.qrInverse_rowwise", "Properties.C12.svdForward_rowwise", "Properties.C12.svdInverse_rowwise", "Properties.C12.hhForward_rowwise", "Properties.C12.hhInverse_rowwise", "Properties.C12.naiveForward_rowwise", "Properties.C12.naiveInverse_rowwise", "Properties.C12.luForwardLd_pair", "Properties.C12.luInverseLd_pair", "Properties.C12.qrForwardLd_pair", "Properties.C12.qrInverseLd_pair", "Properties.C12.svdForwardLd_pair", "Properties.C12.svdInverseLd_pair", "Properties.C12.hhForwardLd_pair", "Properties.C12.hhInverseLd_pair", "Properties.C12.rowwise_perm", "Properties.C12.pair_rowwise_row_alone", "Properties.C12.bn_eval_forward_row_independent", "Properties.C12.bn_eval_inverse_row_independent", "Properties.C12.act_forward_row_independent", "Properties.C12.act_inverse_row_independent", "Properties.C12.bn_training_not_row_independent", "Properties.C12.act_init_not_row_independent", "Properties.C12.RowIndep_ok_iff", "Properties.C12.stdNormal_logProb_row_independent", "Properties.C12.diagNormal_logProb_row_independent", "Properties.C12.condNormal_logProb_row_independent", "Properties.C12.bern_logProb_row_independent", "Properties.C12.mog_logProb_row_independent", "Properties.C12.flow_logProb_row_independent", "Properties.C12.rowWise_stdNormal_base", "Properties.C12.conv_forward_item_independent", "Properties.C12.conv_inverse_item_independent",
     "Properties.C12.rowWise_cdfStage", "Properties.C12.rowWise_arStage", "Properties.C12.rowWise_couplingStage", "Properties.C12.rowWise_compStage", "Properties.C12.cdfStage_error_first", "Properties.C12.arStage_error_first", "Properties.C12.flowExec_row_independent", "Properties.C12.flowExec_transform_error", "Properties.C12.flowExec_base_error", "Properties.C12.flowExec_raises_iff", "Properties.C12.flowExec_accepted_iff", "Properties.C12.flowExec_composite", "Properties.C12.flowExec_coupling", "Properties.C12.flowExec_ar", "Properties.C12.flowExec_cdf", "Properties.C12.rowIndepBase_stdNormal", "Properties.C12.rowIndepBase_diagNormal", "Properties.C12.rowIndepBase_condNormal",
-    "Properties.C12.rowWise_permStage", "Properties.C12.rowWise_permInvStage", "Properties.C12.rowWise_luStage", "Properties.C12.rowWise_qrStage", "Properties.C12.rowWise_svdStage", "Properties.C12.rowWise_hhStage", "Properties.C12.rowWise_naiveStage", "Properties.C12.rowWise_bnEvalStage", "Properties.C12.rowWise_actStage", "Properties.C12.flowExec_act_lu_coupling",]
+    "Properties.C12.rowWise_permStage", "Properties.C12.rowWise_permInvStage", "Properties.C12.rowWise_luStage", "Properties.C12.rowWise_qrStage", "Properties.C12.rowWise_svdStage", "Properties.C12.rowWise_hhStage", "Properties.C12.rowWise_naiveStage", "Properties.C12.rowWise_bnEvalStage", "Properties.C12.rowWise_actStage", "Properties.C12.flowExec_act_lu_coupling",
+    "Properties.C12.rowWise_arInvStage", "Properties.C12.arInvStage_zero_features_ld",]
 RULE = ("registry (eval mode) x batch sizes {1,2,3,7} x {whole batch vs row-wise model, conditioner outputs batch vs single rows, batch permutation}; "
         "rows mix inside-tail / outside-tail / on-the-bound inputs; distinct = (entry, batch size, direction, check kind); non-trivial = output not the identity")
 EXPLANATION = "row-wise structure proved for the places the code is not written row by row; tie = whole-batch implementation vs the row-wise Lean model, plus conditioner batch-vs-row comparison"
